@@ -869,8 +869,10 @@ func runPaused(c *t2case, rec *recorder, bp **backupfs.BackupFS, w *bufio.Writer
 	start := rec.ticks
 	rec.mu.Unlock()
 	var holdTick int32 = -1
+	heldAt := "-" // filesystem and method of the primitive call A is held at (written before paused is closed)
 	rec.onCall = func(tag, meth, path string, tick int) {
 		if tick-start == ps.k && atomic.CompareAndSwapInt32(&holdTick, -1, int32(tick)) {
+			heldAt = tag + "." + meth
 			once.Do(func() { close(paused) })
 			<-resume
 		}
@@ -910,7 +912,10 @@ func runPaused(c *t2case, rec *recorder, bp **backupfs.BackupFS, w *bufio.Writer
 	}
 	<-doneA
 	<-doneB
-	fmt.Fprintf(w, "P %d %d paused=%v held=%v b_ticks=%d b_done=%v locked=%v\n", ps.a, ps.k, wasPaused, held, bTicks, bDone, backupfs.VerifMuLocked(*bp))
+	if !wasPaused {
+		heldAt = "-"
+	}
+	fmt.Fprintf(w, "P %d %d paused=%v held=%v b_ticks=%d b_done=%v locked=%v at=%s\n", ps.a, ps.k, wasPaused, held, bTicks, bDone, backupfs.VerifMuLocked(*bp), heldAt)
 	pr := func(i int, res opResult) {
 		switch {
 		case res.err != nil:
